@@ -323,9 +323,9 @@ def run_one(ctx: Any, seed: int, tier: str, replay: Optional[dict] = None) -> di
         if r.chance(0.25):
             victim = r.choice(sorted(world["meta"]))
             if r.chance(0.6):
-                sc["read_fault"] = {"cls": "open_r", "path": os.path.basename(victim), "nth": r.choice([0, 0, 1]), "kind": "err", "errno": r.choice(["EIO", "EACCES", "EMFILE"])}
+                sc["read_fault"] = {"cls": "open_r", "path": "/" + os.path.basename(victim), "nth": r.choice([0, 0, 1]), "kind": "err", "errno": r.choice(["EIO", "EACCES", "EMFILE"])}
             else:
-                sc["read_fault"] = {"cls": "open_r", "path": os.path.basename(victim), "repeat": True, "kind": "short_read", "bytes": r.choice([7, 64, 300])}
+                sc["read_fault"] = {"cls": "open_r", "path": "/" + os.path.basename(victim), "repeat": True, "kind": "short_read", "bytes": r.choice([7, 64, 300])}
         hs = rng.fork("hashseed").choice(ctx.hashseeds(2))
     cl = ctx.cluster
     z = cl.zygote(hs, WARM)
